@@ -32,6 +32,10 @@ pub struct CompressSpec {
     pub stale_temp: Option<usize>,
     pub metadata_values: Vec<(String, String)>,
     pub metadata_files: Vec<(String, Vec<u8>)>,
+    /// A further `--metadata-file KEY PATH` whose PATH cannot be read (kind 0: does not
+    /// exist, 1: is a directory). Nothing can be recorded for KEY, so compress must not
+    /// report success.
+    pub unreadable_metadata: Option<(String, u8)>,
 }
 
 impl CompressSpec {
@@ -47,6 +51,7 @@ impl CompressSpec {
             stale_temp: None,
             metadata_values: vec![],
             metadata_files: vec![],
+            unreadable_metadata: None,
         }
     }
     pub fn describe(&self) -> String {
@@ -93,6 +98,16 @@ pub fn compress_run(dir: &Path, name: &str, source: &[u8], spec: &CompressSpec) 
     for (i, (k, v)) in spec.metadata_files.iter().enumerate() {
         let mp = dir.join(format!("{}.meta{}", name, i));
         std::fs::write(&mp, v).expect("write metadata file");
+        args.push(s("--metadata-file"));
+        args.push(k.clone());
+        args.push(p(&mp));
+    }
+    if let Some((k, kind)) = &spec.unreadable_metadata {
+        let mp = dir.join(format!("{}.metabad", name));
+        let _ = std::fs::remove_file(&mp);
+        if *kind == 1 {
+            std::fs::create_dir_all(&mp).expect("create directory as metadata path");
+        }
         args.push(s("--metadata-file"));
         args.push(k.clone());
         args.push(p(&mp));
